@@ -134,12 +134,15 @@ func (h *Hist) Sweep(nkeys int) {
 }
 
 // New creates a repo with one keyvalue instance and returns an empty history on it.
-func New(rng *lib.Rand, inst string) (*Hist, error) {
+func New(rng *lib.Rand, inst string) (*Hist, error) { return NewWith(rng, inst, nil) }
+
+// NewWith passes extra settings to the instance creation (e.g. "versioned": "false").
+func NewWith(rng *lib.Rand, inst string, extra map[string]string) (*Hist, error) {
 	root, err := dv.NewRepo("kvhist")
 	if err != nil {
 		return nil, err
 	}
-	if err := dv.NewInstance(root, "keyvalue", inst, nil); err != nil {
+	if err := dv.NewInstance(root, "keyvalue", inst, extra); err != nil {
 		return nil, err
 	}
 	return &Hist{Rng: rng, Locked: map[int]bool{}, UUIDs: []string{root}, Root: root, Inst: inst}, nil
